@@ -150,6 +150,44 @@ def purity(ctx):
     return n
 
 
+def typed_arguments(ctx, which):
+    """the maps are functions of the VALUE of their argument: a rotation vector, screw or matrix typed as integers (np.array([0, 0, 1])) gives what the same
+    numbers typed as floats give.  which: "maps" (C02) or "derivatives" (C03)"""
+    from cardillo.math import rotations as R
+
+    psis = [np.array(v) for v in ((0, 0, 1), (1, -1, 2), (0, 2, 0), (0, 0, 0))]
+    hs = [np.array(v) for v in ((1, 2, 3, 0, 0, 1), (0, -1, 2, 1, 1, 0), (2, 0, 0, 0, 0, 0))]
+    As = [np.array(v) for v in (((0, -1, 0), (1, 0, 0), (0, 0, 1)), ((1, 0, 0), (0, 1, 0), (0, 0, 1)), ((0, 0, 1), (1, 0, 0), (0, 1, 0)))]
+    Hs = []
+    for A_, r_ in zip(As, ((1, 2, 3), (0, 0, 0), (-1, 0, 2))):
+        H = np.eye(4, dtype=int); H[:3, :3] = A_; H[:3, 3] = r_
+        Hs.append(H)
+    Ps = [np.array(v) for v in ((1, 0, 0, 0), (1, 2, -1, 3), (0, 0, 0, 2))]
+    table = {"maps": [("Exp_SO3", R.Exp_SO3, psis), ("T_SO3", R.T_SO3, psis), ("T_SO3_inv", R.T_SO3_inv, psis), ("Log_SO3", R.Log_SO3, As), ("Exp_SE3", R.Exp_SE3, hs),
+                      ("Log_SE3", R.Log_SE3, Hs), ("Exp_SO3_quat", R.Exp_SO3_quat, Ps), ("Spurrier", R.Spurrier, As), ("T_SO3_quat", R.T_SO3_quat, Ps), ("T_SO3_inv_quat", R.T_SO3_inv_quat, Ps)],
+             "derivatives": [("Exp_SO3_psi", R.Exp_SO3_psi, psis), ("T_SO3_psi", R.T_SO3_psi, psis), ("T_SO3_inv_psi", R.T_SO3_inv_psi, psis), ("Log_SO3_A", R.Log_SO3_A, As),
+                             ("Exp_SE3_h", R.Exp_SE3_h, hs), ("Log_SE3_H", R.Log_SE3_H, Hs), ("Exp_SO3_quat_P", R.Exp_SO3_quat_P, Ps), ("T_SO3_quat_P", R.T_SO3_quat_P, Ps),
+                             ("T_SO3_dot", lambda x: R.T_SO3_dot(x, np.array([1, 0, -2])), psis)]}[which]
+    n = 0
+    for name, f, args in table:
+        for a in args:
+            n += 1
+            where = {"routine": name, "argument": a.tolist(), "typed as": "integers"}
+            try:
+                rf = np.asarray(f(a.astype(float)), dtype=float)
+            except Exception:
+                continue            # not in the routine's domain as floats either: nothing to compare
+            try:
+                ri = np.asarray(f(a.copy()))
+            except Exception as ex:
+                ctx.violation(f"typed:{name}:raises", f"{name} raises {type(ex).__name__}: {ex} for the argument {a.tolist()} typed as integers (as floats it returns a value)", where)
+                break
+            if ri.shape != rf.shape or not np.allclose(np.asarray(ri, dtype=float), rf, rtol=0, atol=1e-14):
+                ctx.violation(f"typed:{name}", f"{name} of {a.tolist()} typed as integers returns {np.asarray(ri).tolist()}, typed as floats {np.round(rf, 12).tolist()}", where)
+                break
+    return n
+
+
 def run(ctx):
     ctx.level = "exploration"
     gmax = 3 if ctx.thorough else 2
@@ -193,6 +231,7 @@ def run(ctx):
     tangent_checks(ctx, J, np.zeros(3), {"psi": [0, 0, 0]}, "tangent")
     counts["purity_histories"] = purity(ctx)
     ctx.log(f"[C02] lattice rotations {counts}; {J.n} float comparisons")
+    counts["typed"] = typed_arguments(ctx, "maps")
     ctx.coverage = {"evaluations": sum(counts.values()), "distinct_nontrivial": len(distinct),
                     "states": states, "transitions": max(trans, 1), "traces_validated_against_impl": sum(counts.values()), "samples": samples,
                     "exhaustive": True, "counts": counts, "comparisons": J.n, "grid": f"-{gmax}..{gmax}",
